@@ -4,7 +4,7 @@ import scipy.linalg as sla
 
 from .tn_core import TOL, ISO_TOL
 from .tn_ops import TNOps, bond_dims
-from .tn_ctor import cplx
+from .tn_ctor import cplx, rep_scalar
 from . import dense as dn
 from . import kr_oracle as ko
 
@@ -151,10 +151,12 @@ class TNDyn(TNOps):
         q0 = (int(psi.ref.qD[0][0]), int(psi.ref.qD[-1][0]))
         realtime = (dt_rel.real == 0.0)
         self.mon_budget = MON_PER_OP
+        rp = op.get('rep')
+        dt_a, n_a, it_a, tol_a = rep_scalar(dt, rp, 'complex'), rep_scalar(n, None if rp is None else rp + 1, 'int'), rep_scalar(numiter, None if rp is None else rp + 2, 'int'), rep_scalar(tol_split, rp)
         if sites == 1:
-            fn = lambda: ptn.integrate_local_singlesite(H.ref, psi.ref, dt, n, numiter_lanczos=numiter)
+            fn = lambda: ptn.integrate_local_singlesite(H.ref, psi.ref, dt_a, n_a, numiter_lanczos=it_a)
         else:
-            fn = lambda: ptn.integrate_local_twosite(H.ref, psi.ref, dt, n, numiter_lanczos=numiter, tol_split=tol_split)
+            fn = lambda: ptn.integrate_local_twosite(H.ref, psi.ref, dt_a, n_a, numiter_lanczos=it_a, tol_split=tol_a)
         c08 = realtime and tol_split == 0
         owners = ['C08'] if c08 else []
         cover = (abs(dt_rel) <= 0.5 and numiter >= 12) or numiter >= self.max_local_dim(psi, sites)
@@ -256,7 +258,14 @@ class TNDyn(TNOps):
         r1, r2 = float(ret[0]), float(ret[1])
         # forward errors (relative to the state's norm then) are amplified on the way back by the ratio of the fastest
         # to the slowest rate: exp(|Re dt| n (lambda_max - lambda_min)), never more than exp(2 |Re dt| |H| n)
-        amp = float(np.exp(min(2 * abs(dt_rel.real) * n, abs(dt.real) * n * self.spectral_spread(H) + 1.0)))
+        # That argument is for linear evolution, i.e. on a complete manifold. On a proper sub-manifold the damped / growing
+        # forward run drives the state towards an eigenvector, Schmidt values shrink by the same exponential factors and the
+        # way back is conditioned like 1 / (smallest Schmidt value): only the crude bound is used there (a sweep, batch
+        # seed 5, session 3450864192902883065, showed a loss of all digits after 99 growing steps of a GHZ-like D = 3 state
+        # with the sharper bound: a false alarm of the round-7 tolerance, DESIGN 11.4).
+        amp = float(np.exp(2 * abs(dt_rel.real) * n))
+        if self.one_sided_complete(psi, v0) is True:
+            amp = min(amp, float(np.exp(abs(dt.real) * n * self.spectral_spread(H) + 1.0)))
         dev = float(np.linalg.norm(r2 * psi.dense - v0))
         self.check(dev <= DYN_TOL * amp, 'C09', 'time_reversible', lambda: f'|r2*psi(back) - psi0|={dev:.3e} (dt_rel={dt_rel!r}, n={n}, numiter={numiter}, bonds={bond_dims(psi.ref, "mps")})')
         if dt_rel.real == 0.0:
@@ -294,10 +303,12 @@ class TNDyn(TNOps):
         self.mon_budget = MON_PER_OP
         complete = self.one_sided_complete(psi, v0)
         locdim = self.max_local_dim(psi, sites)
+        rp = op.get('rep')
+        ns_a, it_a, tol_a = rep_scalar(numsweeps, rp, 'int'), rep_scalar(numiter, None if rp is None else rp + 1, 'int'), rep_scalar(tol_split, rp)
         if sites == 1:
-            fn = lambda: ptn.calculate_ground_state_local_singlesite(H.ref, psi.ref, numsweeps, numiter_lanczos=numiter)
+            fn = lambda: ptn.calculate_ground_state_local_singlesite(H.ref, psi.ref, ns_a, numiter_lanczos=it_a)
         else:
-            fn = lambda: ptn.calculate_ground_state_local_twosite(H.ref, psi.ref, numsweeps, numiter_lanczos=numiter, tol_split=tol_split)
+            fn = lambda: ptn.calculate_ground_state_local_twosite(H.ref, psi.ref, ns_a, numiter_lanczos=it_a, tol_split=tol_a)
         st, E = self.guarded(op, fn, targets=(psi,), operands=(H,), owners=('C10',), hprops={H.uid: ['C10']})
         psi.traj = None
         if st != 'ok':
@@ -399,8 +410,9 @@ class TNDyn(TNOps):
             # scale-safe residual: (Q R - A) / |A| evaluated without forming squares of extreme magnitudes
             sc_ = nA if nA > 0 else 1.0
             dev = dn.safe_norm(Q @ (R / sc_) - A / sc_)
-        self.check(dev <= 1e-13 * max(1, min(m_, n_)) if nA > 0 else dev == 0, P, 'product', lambda: f'|QR - A|/|A|={dev:.3e} |A|={nA:.3e} shape {A.shape}')
-        self.check(dn.isometry_defect(Q) <= 1e-12, P, 'isometric', lambda: f'|Q^H Q - 1|={dn.isometry_defect(Q):.3e} shape {Q.shape}')
+        pf = 2.0 ** 29 if A.dtype.type in (np.float32, np.complex64) else 1.0      # eps(single) / eps(double)
+        self.check(dev <= 1e-13 * pf * max(1, min(m_, n_)) if nA > 0 else dev == 0, P, 'product', lambda: f'|QR - A|/|A|={dev:.3e} |A|={nA:.3e} shape {A.shape}')
+        self.check(dn.isometry_defect(Q) <= 1e-12 * pf, P, 'isometric', lambda: f'|Q^H Q - 1|={dn.isometry_defect(Q):.3e} shape {Q.shape}')
         qia = np.asarray(qi, dtype=np.int64)
         offQ = np.abs(Q[np.not_equal.outer(q0a, qia)]).max(initial=0.0)
         offR = np.abs(R[np.not_equal.outer(qia, q1a)]).max(initial=0.0)
